@@ -1015,7 +1015,7 @@ def r_leak(E):
                     q = f"{cls.name}.{fn.name}" if cls is not None else fn.name
                     res.findings.append(Finding(
                         "R-LEAK", f"{q} reads {v} after its loop",
-                        f"{q}: `{v}` is read at line {x.lineno} after the loop `for {v} in {norm(L.iter)[:40]}` has ended: "
+                        f"{q}: `{v}` is read at line {int(x.lineno)} after the loop `for {v} in {norm(L.iter)[:40]}` has ended: "
                         f"it is the last element iterated — one arbitrary object stands in for all of them (and for "
                         f"set-derived collections the choice changes between runs)", rel, x.lineno, q))
                     break
@@ -1131,7 +1131,7 @@ def r_tzreplace(E):
                     f"guarded by `{recv}.tzinfo is None`: an aware date given in another zone is shifted by its UTC offset "
                     f"(or a local-time index is compared with a UTC date)", rel, c.lineno, q))
             elif len(res.samples) < 3:
-                res.samples.append({"site": f"{rel}:{c.lineno} {q}", "call": norm(c)[:70], "verdict": "receiver tested naive"})
+                res.samples.append({"site": f"{rel}:{int(c.lineno)} {q}", "call": norm(c)[:70], "verdict": "receiver tested naive"})
     res.floor = 1     # two sites today (min and max date of a naive index); one if they share a helper
     return res
 
@@ -1467,8 +1467,8 @@ def r_rule_txn(E):
                 if not any(fd.key == key for fd in res.findings):
                     res.findings.append(Finding(
                         "R-RULE-TXN", key,
-                        f"{k}.{m} assigns self.{x} (line {early[0].lineno}) and validates afterwards (raise at line "
-                        f"{early[1].lineno}): when the edit is refused the invalid value stays installed — it is not in the "
+                        f"{k}.{m} assigns self.{x} (line {int(early[0].lineno)}) and validates afterwards (raise at line "
+                        f"{int(early[1].lineno)}): when the edit is refused the invalid value stays installed — it is not in the "
                         f"list of recomputed values the failed update restores — and the next edit computes from it",
                         pm.path_of(k), early[0].lineno, f"{k}.{m}"))
     res.floor = 5
@@ -1503,15 +1503,17 @@ def r_attach(E):
     for suffix, q in sites:
         rel, fn = pm.find_function(suffix, q)
         res.instances += 1
-        det = [c for c in _calls(fn) if isinstance(c.func, ast.Attribute) and c.func.attr == "set_modeling_obj_container"
-               and [norm(a) for a in c.args] == ["None", "None"]]
-        att = [c for c in _calls(fn) if isinstance(c.func, ast.Attribute) and c.func.attr == "set_modeling_obj_container"
-               and [norm(a) for a in c.args] != ["None", "None"] and len(c.args) == 2]
+        from ..astutil import calls_through_helpers, source_order
+        is_smc = lambda c: isinstance(c.func, ast.Attribute) and c.func.attr == "set_modeling_obj_container"
+        allc = calls_through_helpers(fn, pm.helper_finder(q.split(".")[0]), want=is_smc, depth=2)
+        det = [c for c in allc if is_smc(c) and [norm(a) for a in c.args] == ["None", "None"]]
+        att = [c for c in allc if is_smc(c) and [norm(a) for a in c.args] != ["None", "None"] and len(c.args) == 2]
         if not det or not att:
             res.findings.append(Finding("R-ATTACH", f"{q} detach/attach", f"{q} no longer detaches the replaced value and "
                                         f"attaches the new one", rel, fn.lineno, q))
             continue
-        if det[0].lineno > att[0].lineno:
+        order = {id(c): i for i, c in enumerate(allc)}
+        if order[id(det[0])] > order[id(att[0])]:
             res.findings.append(Finding(
                 "R-ATTACH", f"{q} attaches before detaching",
                 f"{q} attaches the new value before detaching the old one: both have the same id, so each common ancestor "
